@@ -306,7 +306,8 @@ func handleWHO(c *Client, e Event) {
 	user.Ident = ident
 	user.Extras.Name = realname
 
-	if account != "0" {
+	// Only WHOX carries account information.
+	if e.Command == RPL_WHOSPCRPL && account != "0" {
 		user.Extras.Account = account
 	}
 
